@@ -39,7 +39,7 @@ class Inputs:
 
     def add(self, family, cat, data, ext='.py', **kw):
         if isinstance(data, str):
-            data = data.encode('utf-8', 'surrogatepass') if False else data.encode('utf-8', 'replace')
+            data = data.encode('utf-8', 'replace')
         d = os.path.join(self.root, family)
         os.makedirs(d, exist_ok=True)
         p = os.path.join(d, 'i%06d%s' % (len(self.items), ext))
@@ -88,29 +88,32 @@ def cpython_validity(tree, items):
 
 
 def run_compiler(tree, items, budget_s):
-    """translate every item with the monitor plugin; isolate worker deaths to single inputs"""
+    """translate every item with the monitor plugin; a worker that dies (hard crash, wall-clock watchdog) loses the
+    rest of its chunk: those inputs are run again (re-chunked), finally one process per input, so that a death is
+    attributed to exactly one input"""
     jobs = [{'src': it['path'], 'language_level': 3} for it in items]
-    res, plug = tree.translate(jobs, plugins=[MON], plugin_args={MON: {'cpu_budget_s': budget_s}}, timeout=7200)
-    died = [i for i, r in enumerate(res) if r.get('worker_died')]
+    pa = {MON: {'cpu_budget_s': budget_s}}
+    res, plug = tree.translate(jobs, plugins=[MON], plugin_args=pa, timeout=10800)
     evals = sum(p.get(MON, {}).get('evaluations', 0) for p in plug)
-    # jobs after the one that killed the worker were never run: run the rest again, one process per input for the
-    # first of each dead chunk (the culprit), normally for the others
-    rounds = 0
-    while died and rounds < 6:
-        rounds += 1
-        sub = [jobs[i] for i in died]
-        r2, p2 = tree.translate(sub, plugins=[MON], plugin_args={MON: {'cpu_budget_s': budget_s}}, timeout=3600,
-                                nworkers=min(core.NCPU, len(sub)))
+    pending = [i for i, r in enumerate(res) if r.get('worker_died')]
+    for rnd in range(6):
+        if not pending or len(pending) <= core.NCPU:
+            break
+        r2, p2 = tree.translate([jobs[i] for i in pending], plugins=[MON], plugin_args=pa, timeout=10800)
         evals += sum(p.get(MON, {}).get('evaluations', 0) for p in p2)
-        still = []
-        for i, r in zip(died, r2):
-            if r.get('worker_died') and len(sub) > core.NCPU:
-                still.append(i)
+        nxt = []
+        for i, r in zip(pending, r2):
+            if r.get('worker_died'):
+                nxt.append(i)
             else:
                 res[i] = r
-        if len(still) == len(died):
-            break
-        died = still
+        pending = nxt
+    for k in range(0, len(pending), core.NCPU):
+        part = pending[k:k + core.NCPU]
+        r2, p2 = tree.translate([jobs[i] for i in part], plugins=[MON], plugin_args=pa, timeout=3600, nworkers=len(part))
+        evals += sum(p.get(MON, {}).get('evaluations', 0) for p in p2)
+        for i, r in zip(part, r2):
+            res[i] = r
     return res, evals
 
 
@@ -184,7 +187,8 @@ def main(ck):
     deliberate = load_deliberate()
     rng = ck.rng('inputs')
     # ------------------------------------------------------------------ (a) generator of valid programs
-    n_valid = ck.pick(600, 6000)
+    scale = float(os.environ.get('VERIF_C43_SCALE', '1'))     # development aid
+    n_valid = int(ck.pick(600, 6000) * scale)
     gen_rejected = 0
     kinds = {}
     small = []
@@ -198,12 +202,12 @@ def main(ck):
         if len(text) < 2500 and len(small) < 80:
             small.append(text)
     # ------------------------------------------------------------------ (b) literal and structure stress
-    for cat, t in I.literal_programs(ck.rng('lit'), ck.pick(150, 10 ** 6)):
+    for cat, t in I.literal_programs(ck.rng('lit'), int(ck.pick(150, 10 ** 6) * scale)):
         inputs.add('literal', cat, t)
     for cat, t in I.DIRECTED:
         inputs.add('directed', cat, t)
     # ------------------------------------------------------------------ (c) mutated and truncated texts
-    n_mut = ck.pick(1500, 20000)
+    n_mut = int(ck.pick(1500, 20000) * scale)
     seeds = small + [t for c, t in I.DIRECTED]
     for i in range(n_mut):
         base = seeds[i % len(seeds)]
@@ -225,7 +229,7 @@ def main(ck):
             inputs.add('tests-run-py', os.path.basename(p), open(p, 'rb').read(), origin=p)
     items = inputs.items
     cpy_crashes = cpython_validity(tree, items)
-    res, evals = run_compiler(tree, items, budget_s=ck.pick(120, 300))
+    res, evals = run_compiler(tree, items, budget_s=ck.pick(600, 900))
 
     # ------------------------------------------------------------------ classify
     hist = {}
@@ -300,13 +304,17 @@ def main(ck):
                                 'expected': 'C accepted by gcc', 'observed': (rr.err or '')[-1500:]})
 
     # ------------------------------------------------------------------ reach
-    all_nodes = [n for n in dir(__import__('ast')) if isinstance(getattr(__import__('ast'), n), type)]
     import ast
-    concrete = sorted(c.__name__ for c in set(ast.stmt.__subclasses__() + ast.expr.__subclasses__() + ast.pattern.__subclasses__()
-                                              + ast.excepthandler.__subclasses__() + [ast.comprehension, ast.arguments, ast.arg,
-                                                                                      ast.keyword, ast.alias, ast.withitem, ast.match_case])
-                      if c.__name__ not in ('Suite', 'AugLoad', 'AugStore', 'Param', 'Index', 'ExtSlice', 'Num', 'Str', 'Bytes',
-                                            'NameConstant', 'Ellipsis', 'Slice') or c.__name__ == 'Slice')
+
+    def subclasses(c):
+        out = []
+        for x in c.__subclasses__():
+            out += [x] + subclasses(x)
+        return out
+    deprecated = {'Suite', 'AugLoad', 'AugStore', 'Param', 'Index', 'ExtSlice', 'Num', 'Str', 'Bytes', 'NameConstant', 'Ellipsis'}
+    concrete = sorted({c.__name__ for base in (ast.stmt, ast.expr, ast.pattern, ast.excepthandler, ast.type_param)
+                       for c in subclasses(base)} - deprecated | {'comprehension', 'arguments', 'arg', 'keyword', 'alias',
+                                                                   'withitem', 'match_case'})
     uncovered = [c for c in concrete if kinds.get(c, 0) < 10]
     valid_gen = [it for it in items if it['family'].startswith('valid-')]
     gen_ok = sum(1 for it in valid_gen if it['cls'] == 'ok')
@@ -318,7 +326,6 @@ def main(ck):
     ck.inconclusive_if(c_checked < ck.pick(20, 300), 'only %d generated C files were syntax-checked' % c_checked)
     unreached = [d[0] for d in deliberate if d[0] not in delib_hits]
     ck.cov['deliberate_entries_not_reached'] = unreached
-    ck.inconclusive_if(hist.get('watchdog', 0) > 0 and False, 'wall-clock watchdog fired')
     return ck.finish(
         len(items), nontrivial,
         'inputs: pysyntax-generated valid modules (profiles mixed/names/hostile), literal and structure stress programs, '
@@ -348,7 +355,7 @@ def replay(ck, data):
     data_b = bytes.fromhex(w['input_hex_if_binary']) if (w.get('input_hex_if_binary') and len(text) < 400) else text.encode('utf-8')
     it = inputs.add('replay', w.get('category') or '?', data_b)
     cpython_validity(tree, [it])
-    res, _ = run_compiler(tree, [it], 300)
+    res, _ = run_compiler(tree, [it], 900)
     cls, disc = classify(it, res[0], load_deliberate())
     print('valid python:', it['valid'], ' outcome:', cls)
     for k, what in disc:
